@@ -181,7 +181,8 @@ def focus_c18(proj, rng, steps):
 
 
 def drain(proj, rng, ok=True):
-    """the cluster executes every pending/running job in a random legal order; a successful job
+    """the cluster executes every pending/running job in a seeded legal order (biased towards running late
+    submissions first); a successful job
     (re)creates its target's declared outputs with a fresh time stamp"""
     import gen
     by_name = {t["name"]: t for t in proj.targets}
@@ -199,7 +200,9 @@ def drain(proj, rng, ok=True):
                 st["jobs"][j["id"]]["state"] = "cancelled"
             proj.cluster.write(st)
             return
-        j = rng.choice(runnable)
+        # adversarial but legal: mostly start the LATEST submitted runnable job first, so a job whose
+        # prerequisites did not reach the scheduler really runs before the producers of its inputs
+        j = max(runnable, key=lambda x: x["order"]) if rng.random() < 0.6 else rng.choice(runnable)
         st["jobs"][j["id"]]["state"] = "completed" if ok else "failed"
         proj.cluster.write(st)
         if ok and j["name"] in by_name:
@@ -276,7 +279,9 @@ def run_history(job):
     try:
         desc = H.gen_cli_project(rng, nmax=5 if tier == "quick" else 9)
         proj = H.materialise_project(root, desc, rng, backend=backend)
-        H.seed_cluster_history(proj, rng)
+        # a local pool is usually started fresh (ids from 0, nothing tracked): half of the local histories start so
+        fresh = backend == "local" and rng.random() < 0.5
+        H.seed_cluster_history(proj, rng, p_tracked=0.0 if fresh else 0.5)
         FOCI[focus](proj, rng, steps)
         info = {"targets": proj.targets, "hashing": proj.hashing}
         return {"seed": seed, "focus": focus + ":" + backend, "steps": steps, "info": info, "error": None}
